@@ -64,7 +64,9 @@ func genCfg(rng *rand.Rand, profile string) Cfg {
 		c.MailMethod = "POST"
 	}
 	c.RecoverLogin = rng.Intn(2) == 0
-	c.Whitelist = [][]string{{}, {}, {"w1"}, {"w1", "w2"}}[rng.Intn(4)]
+	// (a whitelist that names one of the library's own marks is legal: whatever else the session holds still goes;
+	// `uid` and `last_action`, which expiry itself deletes, are outside the configuration domain)
+	c.Whitelist = [][]string{{}, {}, {"w1"}, {"w1", "w2"}, {"halfauth"}, {"twofactor"}, {"w2", "oauth2_state"}}[rng.Intn(7)]
 	c.Unauthed = pickS(rng, "notfound", "redirect", "unauthorized")
 	c.Providers = []string{"google"}
 	if rng.Intn(2) == 0 {
